@@ -223,6 +223,8 @@ class SymNum:
       if k == 'i':
         # int / int -> float in Python
         if not swap and isinstance(o, int) and not isinstance(o, bool) and o > 0:
+          if cur().strict_floats:
+            cur().note_float(op)
           return SymRatio(self.z, o)
         cur().note_float(op)
         k = 'f'
@@ -802,7 +804,9 @@ class Explorer:
 
   def _record(self, aid, detail):
     import json as _json
-    sig = (aid, _json.dumps(detail, sort_keys=True, default=str))
+    # keys starting with "_" carry free-form information (observed/expected text) and are not part of the signature
+    core = {k: v for k, v in detail.items() if not str(k).startswith("_")} if isinstance(detail, dict) else detail
+    sig = (aid, _json.dumps(core, sort_keys=True, default=str))
     n = self._sigs.get(sig, 0)
     self._sigs[sig] = n + 1
     if n == 0:
@@ -913,6 +917,7 @@ class Explorer:
 class Concrete:
   """concrete mode: same API, values are plain python numbers taken from `model`"""
   symbolic = False
+  strict_floats = False
 
   def __init__(self, model):
     self.model = dict(model)
